@@ -279,13 +279,30 @@ def record(scn_name, histories, procs=None):
         return pool.map(_rec_one, jobs, chunksize=4)
 
 
-def validate(traces, timeout=1200):
+def _validate_chunk(args):
+    traces, timeout = args
     work = tlc.scratch('verif-batch-')
     try:
         path = os.path.join(work, 'batch.json')
         with open(path, 'w') as f:
             json.dump(dict(traces=[dict(tid=t['tid'], lines=[
-                {k: v for k, v in l.items() if k != 'tb'} for l in t['lines']]) for t in traces]), f)
+                {k: v for k, v in l.items() if k not in ('tb', 'post', 'queues', 'placement', 'spells',
+                                                         'declared', 'oprio', 'loaded_sched', 'obs_down')}
+                for l in t['lines']]) for t in traces]), f)
         return tlc.validate(SPEC_DIR, 'MasterTrace', 'MasterTrace.cfg', path, timeout=timeout)
     finally:
         shutil.rmtree(work, ignore_errors=True)
+
+
+def validate(traces, timeout=1200, chunk=1500):
+    if len(traces) <= chunk:
+        return _validate_chunk((traces, timeout))
+    import concurrent.futures
+    chunks = [traces[i:i + chunk] for i in range(0, len(traces), chunk)]
+    verdicts, stats = [], {}
+    with concurrent.futures.ThreadPoolExecutor(4) as ex:
+        for v, st in ex.map(_validate_chunk, [(c, timeout) for c in chunks]):
+            verdicts.extend(v)
+            stats = stats or st
+    stats['chunks'] = len(chunks)
+    return verdicts, stats
